@@ -21,7 +21,7 @@ FORBIDDEN = re.compile(r"\b(Admitted|admit|Axiom|Axioms|Parameter|Parameters|Con
 TRUSTED_BASE = [
     "Coq 8.16.1 kernel (coqc); vm_compute used in finite-table proofs; no native_compute",
     "Print Assumptions output of every theorem in Props/<id>.v must be 'Closed under the global context' or a subset of the stdlib axioms named in DESIGN 2.9",
-    "extraction with ExtrOcamlBasic only (standard Extract Inductive for bool/option/list/prod/unit/sumbool; no Extract Constant), OCaml 4.13 ocamlopt, /verif/ocaml/driver.ml line protocol (bit-wise number conversion)",
+    "extraction with the stdlib modules ExtrOcamlBasic and ExtrOcamlZBigInt (Z/positive/N -> zarith 1.12 big integers) plus ONE Extract Constant of our own (Pos.ggcd -> zarith gcd; tools/build_driver.sh), OCaml 4.13 ocamlopt, /verif/ocaml/driver.ml line protocol; every run re-evaluates a sample of its own driver requests inside Coq with vm_compute and compares (extraction_crosscheck in coverage)",
     "harness: case generators, exact float->rational conversion, comparators and tolerances in /verif/harness",
     "quara is MODELLED (hand-written Gallina, tied by running model and implementation on the same inputs each run); NumPy/SciPy/LAPACK are oracles",
     "import shim harness/shim/sitecustomize.py (scipy.linalg.kron := numpy.kron when missing)",
@@ -275,6 +275,7 @@ def write_evidence(ctx, level="proof", extra_assumptions=()):
         "per_subcheck": ctx.sub_counts, "distribution": ctx.dist,
         "known_findings_hit": [{"site": a, "signature": b, "what": c} for a, b, c in ctx.known_hits],
         "notes": ctx.notes,
+        "extraction_crosscheck": getattr(ctx, "extraction_crosscheck", None),
     }
     ev = {"property_id": ctx.prop_id, "tier": ctx.tier, "seed": ctx.seed, "level": level, "coverage": cov,
           "assumptions": list(TRUSTED_BASE) + list(extra_assumptions) + list(getattr(ctx, "assumptions", [])),
@@ -310,6 +311,15 @@ def main():
             mod.replay(ctx, doc)
         else:
             mod.run(ctx)
+
+    # cross-check the extracted driver against vm_compute on a sample of this run's own requests
+    if ctx.model is not None and ok:
+        dev = os.environ.get("VERIF_DEV")
+        mods = dev.split(",") if dev else sorted(os.path.basename(p)[:-len("_ops.v")] for p in glob.glob(os.path.join(COQ, "theories", "Exec", "*_ops.v")))
+        n, bad = modelmod.crosscheck_vm(ctx.model, mods, os.path.join(V, "build", ctx.prop_id), limit=ctx.n(10, 40))
+        ctx.extraction_crosscheck = {"requests_recomputed_with_vm_compute": n, "mismatches": len(bad)}
+        if bad:
+            ctx.violation("extraction-crosscheck", "ocaml-driver", "extraction-mismatch", "extracted driver and vm_compute disagree: %s" % str(bad[0])[:300], {"mismatches": bad}, no_input=True)
 
     write_evidence(ctx, level=getattr(mod, "LEVEL", "proof"))
     for site, sig, what in ctx.known_hits:
